@@ -254,14 +254,14 @@ def decide(pid, prop, tier, seed, results, extra, t0, args):
                 inst = c()
             except Exception:
                 continue
-            if inst.name == (f.get("witness_contract") or f["contract"]) and getattr(c, "has_native", False):
+            if inst.name == (f.get("witness_contract") or f.get("contract")) and getattr(c, "has_native", False):
                 try:
                     fail = inst.native_check(f["witness"])
                 except Exception as exc:
                     fail = f"{type(exc).__name__}: {exc}"
                 if fail:
                     if not any(k is f for k, _ in known_hits):
-                        known_hits.append((f, {"contract": f["contract"], "obligation": f.get("obligation", "native"), "replay_detail": fail}))
+                        known_hits.append((f, {"contract": f.get("contract") or f.get("witness_contract"), "obligation": f.get("obligation", "native"), "replay_detail": fail}))
                 else:
                     stale.append(f["id"])
     real_violations = []
